@@ -601,13 +601,16 @@ class Desugarer:
             # the closure runs when there is nothing: None
             hit_variant = "None"
             miss_variant = "Some"
-        blk["stmts"].append(asg(_pl(n_x), {"k": "use", "op": a0}))
-        blk["stmts"].append(asg(_pl(n_d), {"k": "discriminant", "place": _pl(n_x), "adt": enum}))
+        # the decision gets a block of its own (so that a visible constructor flowing into it can be threaded, A10)
+        BS = B + 6
         tgt = []
         for v, n in variants:
             tgt.append([v, BH if n == hit_variant else BM, n])
-        blk["term"] = {"k": "switch", "discr": _mv(n_d), "discr_ty": "isize", "discr_of": _pl(n_x), "adt": enum, "variants": variants,
-                       "targets": tgt, "otherwise": BU, "line": line, "comb": t["callee"]["name"]}
+        sw = {"id": BS, "stmts": [asg(_pl(n_x), {"k": "use", "op": a0}), asg(_pl(n_d), {"k": "discriminant", "place": _pl(n_x), "adt": enum})],
+              "term": {"k": "switch", "discr": _mv(n_d), "discr_ty": "isize", "discr_of": _pl(n_x), "adt": enum, "variants": variants,
+                       "targets": tgt, "otherwise": BU, "line": line, "comb": t["callee"]["name"]}}
+        c["blocks"].append(sw)
+        blk["term"] = {"k": "goto", "target": BS, "line": line}
         ccallee = {"key": ck, "local": True, "name": "call_once", "gargs": [], "inputs": [], "output": cl["locals"][0]["s"]}
         call_args = [_mv(n_env)] + ([_mv(n_v)] if takes else [])
         st = [asg(_pl(n_env), {"k": "use", "op": _mv(clocal)})]
@@ -747,6 +750,20 @@ def _branch_arms(by_id, m):
     return a["place"]["l"], arms
 
 
+def _only_glue(b):
+    """the block's statements are drop flags, plain moves and discriminant reads (safe to duplicate)"""
+    for st in b["stmts"]:
+        if st["k"] != "assign" or st["dst"]["p"]:
+            return False
+        rv = st["rv"]
+        if rv["k"] == "discriminant":
+            continue
+        if rv["k"] == "use" and (rv["op"].get("k") == "const" or (rv["op"].get("k") in ("copy", "move") and not rv["op"]["place"]["p"])):
+            continue
+        return False
+    return True
+
+
 def _discr_switch(b):
     """block `d = discriminant(x); switch d` on a whole local x (nothing else in the block): (x, {variant name: target})"""
     t = b["term"]
@@ -759,8 +776,12 @@ def _discr_switch(b):
         rv = st["rv"]
         if rv["k"] == "discriminant" and not rv["place"]["p"] and rv["place"]["l"] == t["discr_of"]["l"]:
             nd += 1
+        elif rv["k"] == "discriminant":
+            continue        # drop elaboration reads discriminants of other places: pure
         elif rv["k"] == "use" and rv["op"].get("k") == "const":
             continue        # drop flags
+        elif rv["k"] == "use" and rv["op"].get("k") in ("copy", "move") and not rv["op"]["place"]["p"]:
+            continue        # plain moves (the scrutinee temporary of a desugared combinator)
         else:
             return None
     if nd != 1:
@@ -787,7 +808,7 @@ def thread_function(c, max_region=40):
         t = b["term"]
         if t["k"] == "call" and not t["dst"]["p"] and t["callee"].get("key") == FROM_RES and t["target"] is not None:
             sites.append((b, "Break", t["dst"]["l"], "Err"))
-        elif t["k"] == "goto" and b["stmts"]:
+        elif t["k"] in ("goto", "drop") and b["stmts"]:
             st = b["stmts"][-1]
             if st["k"] == "assign" and not st["dst"]["p"] and st["rv"]["k"] == "aggregate" and st["rv"].get("adt") == "std::result::Result":
                 sites.append((b, "Break" if st["rv"]["variant"] == "Err" else "Continue", st["dst"]["l"], st["rv"]["variant"]))
@@ -810,7 +831,7 @@ def thread_function(c, max_region=40):
                 break
             if xb["term"]["k"] == "unreachable":
                 continue
-            if _branch_arms(by_id, xb) is not None and not xb["stmts"]:
+            if _branch_arms(by_id, xb) is not None and _only_glue(xb):
                 ms.append(xb)
                 continue
             if _discr_switch(xb) is not None:
@@ -834,7 +855,7 @@ def thread_function(c, max_region=40):
         changed = True
         while changed:
             changed = False
-            for xb in region:
+            for xb in region + ms:
                 for st in xb["stmts"]:
                     if st["k"] == "assign" and not st["dst"]["p"] and st["rv"]["k"] == "use" and st["rv"]["op"].get("k") in ("copy", "move") and \
                             not st["rv"]["op"]["place"]["p"] and st["rv"]["op"]["place"]["l"] in tracked and st["dst"]["l"] not in tracked:
@@ -963,6 +984,126 @@ def known_signatures():
     return _SIGS
 
 
+def fold_known_switches(c):
+    """after threading, a `match x` may be left with only definitions of one visible constructor reaching it (the others
+    were redirected past it): the match is then decided - replace it by a jump to that arm.
+    (`let mut found = None; for .. { if p { found = Some(v); break } } match found { .. }`: the Some definition is threaded
+    into its arm, what still reaches the match is the initial None.)"""
+    by_id = {b["id"]: b for b in c["blocks"]}
+    succ = {b["id"]: [x for x in _succs(b) if x in by_id] for b in c["blocks"]}
+    # definitions of whole locals with their visible constructor (None = unknown)
+    defs = {}
+
+    def cls(rv, depth=0):
+        if rv["k"] == "aggregate" and rv.get("adt") in ("std::option::Option", "std::result::Result"):
+            return rv["variant"]
+        if rv["k"] == "use" and rv["op"].get("k") in ("copy", "move") and not rv["op"]["place"]["p"] and depth < 4:
+            src = rv["op"]["place"]["l"]
+            ds = single.get(src)
+            if ds is not None:
+                return cls(ds, depth + 1)
+        return None
+    single = {}
+    count = {}
+    for b in c["blocks"]:
+        for st in b["stmts"]:
+            if st["k"] == "assign" and not st["dst"]["p"]:
+                count[st["dst"]["l"]] = count.get(st["dst"]["l"], 0) + 1
+                single[st["dst"]["l"]] = st["rv"]
+        t = b["term"]
+        if t["k"] == "call" and not t["dst"]["p"]:
+            count[t["dst"]["l"]] = count.get(t["dst"]["l"], 0) + 2
+    single = {l: rv for l, rv in single.items() if count.get(l) == 1}
+    for b in c["blocks"]:
+        for st in b["stmts"]:
+            if st["k"] == "assign" and not st["dst"]["p"]:
+                defs.setdefault(st["dst"]["l"], []).append((b["id"], cls(st["rv"])))
+            elif st["k"] == "setdiscr" or (st["k"] == "assign" and st["dst"]["p"]):
+                defs.setdefault(st["dst"]["l"], []).append((b["id"], None))
+        t = b["term"]
+        if t["k"] == "call":
+            defs.setdefault(t["dst"]["l"], []).append((b["id"], None))
+            # a `&mut x` handed to a call may change x: treated as unknown if x's address is taken mutably anywhere
+    mut_borrowed = set()
+    for b in c["blocks"]:
+        for st in b["stmts"]:
+            if st["k"] == "assign" and st["rv"]["k"] == "ref" and st["rv"].get("mut"):
+                mut_borrowed.add(st["rv"]["place"]["l"])
+    entry = c["blocks"][0]["id"] if c["blocks"] else None
+    live = set()
+    stack = [entry]
+    while stack:
+        y = stack.pop()
+        if y in live or y is None:
+            continue
+        live.add(y)
+        stack.extend(succ.get(y, []))
+    for l in list(defs):
+        defs[l] = [(bid, k) for bid, k in defs[l] if bid in live]
+    n = 0
+    for m in c["blocks"]:
+        ds = _discr_switch(m)
+        if ds is None or m["id"] not in live:
+            continue
+        x, arms = ds
+        # the scrutinee may be a fresh temporary moved from the variable: look through plain moves inside the block
+        src = x
+        for st in m["stmts"]:
+            if st["k"] == "assign" and st["dst"]["l"] == src and st["rv"]["k"] == "use" and st["rv"]["op"].get("k") in ("copy", "move") and not st["rv"]["op"]["place"]["p"]:
+                src = st["rv"]["op"]["place"]["l"]
+        if src <= c["arg_count"] or src in mut_borrowed or src not in defs:
+            continue
+        dblocks = {bid for bid, k in defs[src] if bid != m["id"]}
+        reaching = set()
+        unknown = False
+        for bid, k in defs[src]:
+            if bid == m["id"]:
+                continue
+            # does this definition reach m without passing another definition block of src?
+            seen = set()
+            stack = list(succ.get(bid, []))
+            hit = False
+            while stack:
+                y = stack.pop()
+                if y in seen:
+                    continue
+                seen.add(y)
+                if y == m["id"]:
+                    hit = True
+                    break
+                if y in dblocks:
+                    continue
+                stack.extend(succ.get(y, []))
+            if hit:
+                # the last definition in that block counts
+                last = [k2 for b2, k2 in defs[src] if b2 == bid][-1]
+                if last is None:
+                    unknown = True
+                reaching.add(last)
+        # reachable from the entry without any definition?
+        seen = set()
+        stack = [entry]
+        while stack:
+            y = stack.pop()
+            if y in seen:
+                continue
+            seen.add(y)
+            if y == m["id"]:
+                unknown = True
+                break
+            if y in dblocks:
+                continue
+            stack.extend(succ.get(y, []))
+        if unknown or len(reaching) != 1:
+            continue
+        v = next(iter(reaching))
+        t = m["term"]
+        tgt = arms.get(v, t["otherwise"])
+        m["term"] = {"k": "goto", "target": tgt, "line": t.get("line", 0), "folded": v}
+        n += 1
+    return n
+
+
 def thread_bool_temps(c, max_region=30):
     """A15: `matches!(..)`, `let flag = <match producing true/false>; if flag`, and the `false` / `true` short-circuit arm
     of `&&` / `||` all park a constant in a bool temporary and branch on it after a join.  Each block that assigns the
@@ -1066,6 +1207,8 @@ def normalise(data, known_keys):
         if not d.get("derived"):
             for _ in range(4):
                 k = thread_function(d) + thread_bool_temps(d)
+                if k:
+                    k += fold_known_switches(d)
                 threaded += k
                 if not k:
                     break
